@@ -1,11 +1,12 @@
 ----------------------------- MODULE MixinsTrace -----------------------------
 (***************************************************************************)
 (* Batched trace validation for Mixins (code -> spec).  TRACE_FILE holds   *)
-(*   [ {cfg: {apis:[..], rulecode:{rpc: 0..2}, own, legacy, tmpl,          *)
+(*   [ {cfg: {apis:[..], rulecode:{rpc: 0..2}, own, layout, legacy, tmpl,  *)
 (*            transports:[..], clients:[..]},                              *)
-(*      events: [ {ev:"select", sync:[rpc..], asyncio:[rpc..]}             *)
-(*              | {ev:"call", m, kind, via, path, reqtype, resptype, hkey, *)
-(*                 hval, verb, body, extra} .. ]} .. ]                     *)
+(*      events: [ {ev:"select", present: {Carrier: {sync:[rpc..],          *)
+(*                 asyncio:[rpc..]}, Other: {sync:[..], asyncio:[..]}}}    *)
+(*              | {ev:"call", svc, m, kind, via, path, reqtype, resptype,  *)
+(*                 hkey, hval, verb, body, extra} .. ]} .. ]               *)
 (* recorded from a library emitted by the real generator for that          *)
 (* configuration: `select` = the mixin method names found on the imported  *)
 (* client classes, `call` = what the loopback gRPC / HTTP server saw and    *)
@@ -23,24 +24,25 @@ SetOf(s) == {s[i] : i \in 1..Len(s)}
 
 C(t) == Traces[t].cfg
 RulesOf(t) == [m \in RPCs |-> C(t).rulecode[m]]
-ResetFor(t) == /\ apis' = SetOf(C(t).apis) /\ rules' = RulesOf(t) /\ own' = C(t).own /\ transports' = SetOf(C(t).transports)
+ResetFor(t) == /\ apis' = SetOf(C(t).apis) /\ rules' = RulesOf(t) /\ own' = C(t).own /\ layout' = C(t).layout /\ transports' = SetOf(C(t).transports)
                /\ legacy' = C(t).legacy /\ tmpl' = C(t).tmpl /\ clients' = SetOf(C(t).clients)
-               /\ phase' = "generated" /\ exposed' = [c \in {"sync", "asyncio"} |-> {}] /\ call' = NoCall
+               /\ phase' = "generated" /\ exposed' = NoneExposed /\ call' = NoCall
 TInit == /\ tid = 1 /\ l = 1 /\ TLCSet(1, 0) /\ TLCSet(2, <<0, 0>>)
-         /\ apis = SetOf(C(1).apis) /\ rules = RulesOf(1) /\ own = C(1).own /\ transports = SetOf(C(1).transports)
+         /\ apis = SetOf(C(1).apis) /\ rules = RulesOf(1) /\ own = C(1).own /\ layout = C(1).layout /\ transports = SetOf(C(1).transports)
          /\ legacy = C(1).legacy /\ tmpl = C(1).tmpl /\ clients = SetOf(C(1).clients)
-         /\ phase = "generated" /\ exposed = [c \in {"sync", "asyncio"} |-> {}] /\ call = NoCall
+         /\ phase = "generated" /\ exposed = NoneExposed /\ call = NoCall
 
 IsEvent(e) == tid <= N /\ l <= Len(Ev) /\ Ev[l].ev = e /\ l' = l + 1 /\ tid' = tid
-\* the names found on each existing client = what the specification exposes there (plus the API's own IAM RPCs)
+\* the names found on each existing client of each service = what the specification exposes there (plus the service's own IAM RPCs)
 TSelect == /\ IsEvent("select") /\ SelectMixins
-           /\ SetOf(Ev[l].sync) = exposed'["sync"] \cup OwnRPCs
-           /\ ("asyncio" \in clients => SetOf(Ev[l].asyncio) = exposed'["asyncio"] \cup OwnRPCs)
-Logged == [m |-> Ev[l].m, kind |-> Ev[l].kind, via |-> Ev[l].via, path |-> Ev[l].path, reqtype |-> Ev[l].reqtype,
+           /\ \A sv \in Services :
+                /\ SetOf(Ev[l].present[sv].sync) = exposed'[sv]["sync"] \cup OwnOn(sv)
+                /\ ("asyncio" \in clients => SetOf(Ev[l].present[sv].asyncio) = exposed'[sv]["asyncio"] \cup OwnOn(sv))
+Logged == [svc |-> Ev[l].svc, m |-> Ev[l].m, kind |-> Ev[l].kind, via |-> Ev[l].via, path |-> Ev[l].path, reqtype |-> Ev[l].reqtype,
            resptype |-> Ev[l].resptype, hkey |-> Ev[l].hkey, hval |-> Ev[l].hval, verb |-> Ev[l].verb,
            body |-> Ev[l].body, extra |-> Ev[l].extra]
-TCall == /\ IsEvent("call") /\ Ev[l].m \in RPCs /\ Ev[l].kind \in Kinds
-         /\ (CallMixin(Ev[l].m, Ev[l].kind) \/ CallOwn(Ev[l].m, Ev[l].kind))
+TCall == /\ IsEvent("call") /\ Ev[l].svc \in Svcs /\ Ev[l].m \in RPCs /\ Ev[l].kind \in Kinds
+         /\ (CallMixin(Ev[l].svc, Ev[l].m, Ev[l].kind) \/ CallOwn(Ev[l].svc, Ev[l].m, Ev[l].kind))
          /\ call' = Logged
 TNextTrace == /\ tid <= N /\ l = Len(Ev) + 1 /\ phase = "selected"
               /\ TLCSet(1, tid)
